@@ -341,6 +341,12 @@ func ruleENCTEXT(c *Ctx) []Obligation {
 						if f := calleeOf(info, pc); f != nil && f.Pkg() != nil && (f.Pkg().Path() == "fmt" || strings.HasSuffix(f.Pkg().Path(), "/errors")) {
 							inDiagnostic = true
 						}
+						// an error constructor of the package (errorf(node, format, args…) error)
+						if f := calleeOf(info, pc); f != nil {
+							if rs := f.Type().(*types.Signature).Results(); rs.Len() == 1 && isErrorType(rs.At(0).Type()) {
+								inDiagnostic = true
+							}
+						}
 						if id, ok := pc.Fun.(*ast.Ident); ok && id.Name == "panic" {
 							inDiagnostic = true
 						}
